@@ -692,3 +692,77 @@ Proof.
       * left. exists d. split; [|auto]. apply Hdd. right. split; [assumption|]. unfold ddkey. rewrite D2, D3. apply Hkeyneq; assumption.
       * right. split; [assumption|]. split; [rewrite hput_other by (apply Hkeyneq; assumption); exact X2|]. exists t0, e0. auto.
 Qed.
+
+(* ================= D. ANend, loading on demand, and what a loaded tree lists ================================ *)
+Lemma ANend_Good : forall s, Good s -> Good (ANend s) /\ l_dds (ANend s) = l_dds s /\ (forall ty, l_tree (ANend s) ty = None) /\
+  l_atoms (ANend s) = [] /\
+  (forall x, Repr (ANend s) x <-> Repr s x /\ a_text x <> None).
+Proof.
+  intros s [HI HT]. pose proof (ANend_Inv s HI) as HI'.
+  assert (Hat : l_atoms (ANend s) = []).
+  { destruct (l_atoms (ANend s)) as [|[i nd] r] eqn:E; [reflexivity|]. exfalso.
+    assert (Z0 : zassoc i (l_atoms (ANend s)) = Some nd) by (rewrite E; simpl; rewrite Z.eqb_refl; reflexivity).
+    destruct (inv_owner _ HI' i nd Z0) as [ty [t [e [A _]]]]. simpl in A. discriminate. }
+  split; [split; [assumption|]|].
+  - constructor; simpl; try discriminate.
+    + apply (tf_nodup _ HT). + apply (tf_len _ HT). + apply (tf_tags _ HT).
+  - split; [reflexivity|]. split; [reflexivity|]. split; [assumption|].
+    intros x. unfold Repr. simpl. split.
+    + intros [A [B|[_ [_ [t [e [C _]]]]]]]; [|discriminate]. split; [split; [assumption | left; assumption]|].
+      destruct B as [d [_ [_ [_ [B _]]]]]. rewrite B. discriminate.
+    + intros [[A [B|[B _]]] N]; [split; [assumption | left; assumption] | contradiction].
+Qed.
+
+Lemma ids_preserved : forall s s', Inv s -> (forall i, i < l_next s -> zassoc i (l_atoms s') = zassoc i (l_atoms s)) ->
+  forall id tr, ANid2tagref s id = Some tr -> ANid2tagref s' id = Some tr.
+Proof.
+  intros s s' HI H id tr X. unfold ANid2tagref in *. destruct (zassoc id (l_atoms s)) as [nd|] eqn:Ez; [|discriminate].
+  pose proof (inv_ids _ HI _ _ (zassoc_In _ _ _ _ Ez)). rewrite H by lia. rewrite Ez. exact X.
+Qed.
+
+Lemma need_tree_Good : forall s ty s1 r, Good s -> tyok ty -> need_tree s ty = (s1, r) ->
+  Good s1 /\ (exists t, r = Some t /\ l_tree s1 ty = Some t) /\ l_dds s1 = l_dds s /\ (forall x, Repr s1 x <-> Repr s x) /\
+  (forall id tr, ANid2tagref s id = Some tr -> ANid2tagref s1 id = Some tr) /\
+  (forall ty' t, l_tree s ty' = Some t -> l_tree s1 ty' = Some t) /\ l_next s <= l_next s1.
+Proof.
+  intros s ty s1 r HG Hty H. unfold need_tree in H. destruct (l_num s ty =? -1) eqn:En.
+  - destruct (ANIcreate_ann_tree s ty) as [s2 n] eqn:Ec.
+    destruct (create_tree_Good _ _ _ _ HG Hty Ec) as [A [B [C [D [[t E] [F [G1 G2]]]]]]].
+    destruct (n =? FAILV) eqn:Ef; [apply Z.eqb_eq in Ef; contradiction|]. inversion H; subst s1 r.
+    split; [assumption|]. split; [exists t; auto|]. split; [assumption|]. split; [assumption|].
+    split; [apply (ids_preserved s s2 (proj1 HG) G1)|]. split; [|assumption].
+    intros ty' t0 X. destruct (Z.eq_dec ty' ty) as [->|N]; [|rewrite F by assumption; assumption].
+    apply Z.eqb_eq in En. apply (inv_num _ (proj1 HG)) in En. congruence.
+  - simpl in H. inversion H; subst s1 r. apply Z.eqb_neq in En.
+    assert (exists t, l_tree s ty = Some t) as [t Ht].
+    { destruct (l_tree s ty) eqn:E; [eauto|]. apply (inv_num _ (proj1 HG)) in E. contradiction. }
+    split; [assumption|]. split; [exists t; auto|]. split; [reflexivity|]. split; [tauto|]. split; [auto|]. split; [auto|lia].
+Qed.
+
+(** the entries of a loaded tree are exactly the existing annotations of that type *)
+Lemma tree_repr : forall s ty t, Good s -> l_tree s ty = Some t ->
+  (forall k e, In (k, e) t -> k = AN_CREATE_KEY ty (e_annref e) /\
+     exists x, Repr s x /\ a_key x = (ty, e_annref e) /\ (a_ttag x, a_tref x) = (e_elmtag e, e_elmref e)) /\
+  (forall x, Repr s x -> fst (a_key x) = ty ->
+     exists e, In (AN_CREATE_KEY ty (snd (a_key x)), e) t /\ e_annref e = snd (a_key x) /\ (a_ttag x, a_tref x) = (e_elmtag e, e_elmref e)).
+Proof.
+  intros s ty t HG Ht. pose proof HG as [HI HT]. destruct (inv_tree _ HI ty t Ht) as [Hty [Hs Hent]]. split.
+  - intros k e Hin. destruct (Hent _ _ Hin) as [Hr [Hk _]]. split; [assumption|]. subst k.
+    destruct (hfind (tag_of_type ty) (e_annref e) (l_dds s)) as [d|] eqn:Eh.
+    + apply hfind_some in Eh. destruct Eh as [D1 [D2 D3]].
+      exists (mkann (ty, e_annref e) (fst (target_of ty d)) (snd (target_of ty d)) (Some (payload_text (d_tag d) (d_data d)))).
+      assert (Rx : Repr s (mkann (ty, e_annref e) (fst (target_of ty d)) (snd (target_of ty d)) (Some (payload_text (d_tag d) (d_data d))))).
+      { split; [cbn; auto|]. left. exists d. cbn. repeat split; auto. destruct (target_of ty d); reflexivity. }
+      split; [exact Rx|]. split; [reflexivity|]. apply (Repr_key_target s ty (e_annref e) t e _ HG Ht Hin Rx eq_refl).
+    + exists (mkann (ty, e_annref e) (e_elmtag e) (e_elmref e) None). split; [|split; reflexivity].
+      split; [cbn; auto|]. right. cbn. split; [reflexivity|]. split; [assumption|]. exists t, e. auto.
+  - intros [[xt xr] xg xf xtx] Rx Hk. cbn in Hk. subst xt. cbn [a_key a_ttag a_tref fst snd]. pose proof Rx as Rx0.
+    assert (exists e, In (AN_CREATE_KEY ty xr, e) t) as [e Hin].
+    { destruct Rx as [_ [[d [D1 [D2 [D3 _]]]]|[_ [_ [t0 [e [C1 [C2 _]]]]]]]]; cbn in *.
+      - destruct (tf_file _ HT ty t d Ht D1 D2) as [e [X _]]. rewrite D3 in X. eauto.
+      - rewrite Ht in C1. inversion C1; subst t0. eauto. }
+    exists e. split; [assumption|]. destruct (Hent _ _ Hin) as [Hr [Hk _]]. destruct Rx as [[_ R] _]. cbn in R.
+    rewrite MAX_REF_val in *. pose proof Hk as Hk'. apply key_inj in Hk'; try (unfold tyok in Hty; lia). destruct Hk' as [_ Hk'].
+    split; [congruence|].
+    apply (Repr_key_target s ty xr t e _ HG Ht Hin Rx0 eq_refl).
+Qed.
